@@ -256,6 +256,23 @@ CHECKS['C17'] = {
                  'units oracle',
 }
 
+CHECKS['C16'] = {
+    'text': 'render_text / render_csv on results whose cells are symbolic (int, bool) or enumerated from palettes (str, date, '
+            'decimal incl. negative fractions and exponents, set, object, NULL) under every combination of boxed / unicode / '
+            'spaced / narrow, headers shorter and longer than the cells, three NULL placeholders: all lines have equal width, '
+            'columns sit at the fixed offsets given by the rule line, headers are centred (cut only in narrow mode), every '
+            'cell shows its value untruncated and reads back, decimals are aligned on the decimal point; an inductive step of '
+            'the DecimalRenderer two-phase protocol from an arbitrary accumulated state; CSV records field by field; amount / '
+            'position / inventory columns on concrete palettes (rectangular, every currency and number shown, expansion only '
+            'with expand).',
+    'design_ref': 'DESIGN.md section 5, C16',
+    'note': _COMMON_NOTE + ' Formatting symbolic values is the costliest thing to execute symbolically: only int and bool '
+            'cells are symbolic, everything else is enumerated; number formatting of amounts is beancount\'s and is checked '
+            'on concrete values only.',
+    'technique': 'symbolic execution (CrossHair/z3) of the column renderers and render_text with a layout parser as oracle; '
+                 'inductive step for DecimalRenderer',
+}
+
 NOT_APPLICABLE = {
     pid: 'check under construction in this session; not claimed yet'
     for pid in ['C06', 'C11', 'C12', 'C13', 'C14', 'C16', 'C17', 'C18', 'C19', 'C20']
